@@ -252,4 +252,336 @@ theorem mapExcept_congr {α β ε : Type} (f g : α → Except ε β) (l : List 
     simp only [mapExcept, h a (by simp), ih (fun x hx => h x (by simp [hx]))]
 
 
+/-! ### b4: the module files plus the v1 buf.yaml / buf.lock object data -/
+
+/-- the (name, data) pairs of the object data that are present -/
+def objEntries (os : List (Option ObjectData)) : List Entry :=
+  os.filterMap (fun o => o.map fun d => (d.name, d.data))
+
+/-- everything a b4 digest covers: the module files and the present object data -/
+def b4Entries (b : Bucket) (yaml lock : Option ObjectData) : List Entry :=
+  filterModule b ++ objEntries [yaml, lock]
+
+theorem objectNodes_ok (H : Bytes → Digest) : ∀ (os : List (Option ObjectData)) (extra : List FileNode),
+    objectNodes H os = .ok extra →
+    extra = nodesOf H (objEntries os) ∧ ∀ e ∈ objEntries os, validateNodePath e.1 = .ok ()
+  | [], extra, h => by
+    simp only [objectNodes, Except.ok.injEq] at h
+    subst h; exact ⟨rfl, by intro e he; cases he⟩
+  | none :: rest, extra, h => by
+    simp only [objectNodes] at h
+    simpa [objEntries] using objectNodes_ok H rest extra h
+  | some o :: rest, extra, h => by
+    simp only [objectNodes] at h
+    cases hn : newFileNode o.name (H o.data) with
+    | error e => rw [hn] at h; cases h
+    | ok n =>
+      rw [hn] at h
+      cases hr : objectNodes H rest with
+      | error e => rw [hr] at h; cases h
+      | ok ns =>
+        rw [hr] at h
+        simp only [Except.ok.injEq] at h
+        obtain ⟨ih1, ih2⟩ := objectNodes_ok H rest ns hr
+        have hne := newFileNode_eq_ok hn
+        subst h
+        refine ⟨?_, ?_⟩
+        · simp only [objEntries, List.filterMap_cons, Option.map_some, nodesOf, List.map_cons]
+          rw [show ns = nodesOf H (objEntries rest) from ih1]
+          simp only [nodesOf, objEntries, List.cons.injEq, and_true]
+          cases n; simp_all
+        · intro e he
+          simp only [objEntries, List.filterMap_cons, Option.map_some, List.mem_cons] at he
+          rcases he with rfl | he
+          · exact hne.1
+          · exact ih2 e he
+
+/-- closed form of a successful `Module.Digest(b4)` -/
+theorem moduleB4_eq_ok (H : Bytes → Digest) (raw : Bucket) (yaml lock : Option ObjectData) (h : BucketOK raw)
+    (d : MDigest) (hd : moduleB4 H raw yaml lock = .ok d) :
+    ((nodesOf H (b4Entries raw yaml lock)).map (·.path)).Nodup ∧
+    (∀ e ∈ b4Entries raw yaml lock, validateNodePath e.1 = .ok ()) ∧
+    d = ⟨.b4, H (utf8 (manifestString (sortBy pathLe (nodesOf H (b4Entries raw yaml lock)))))⟩ ∧
+    b4ManifestText H (filterModule raw) yaml lock =
+      manifestString (sortBy pathLe (nodesOf H (b4Entries raw yaml lock))) := by
+  have hf := h.filter
+  unfold moduleB4 b4Digest at hd
+  rw [filterModule_idem, walkNodes_ok H _ hf.2] at hd
+  simp only [] at hd
+  cases ho : objectNodes H [yaml, lock] with
+  | error e => rw [ho] at hd; cases hd
+  | ok extra =>
+    rw [ho] at hd
+    simp only [] at hd
+    obtain ⟨hx, hv⟩ := objectNodes_ok H _ extra ho
+    cases hm : manifestDigest H (nodesOf H (filterModule raw) ++ extra) with
+    | error e => rw [hm] at hd; cases hd
+    | ok dg =>
+      rw [hm] at hd
+      simp only [Except.ok.injEq] at hd
+      unfold manifestDigest at hm
+      cases hn : newManifest (nodesOf H (filterModule raw) ++ extra) with
+      | error e => rw [hn] at hm; cases hm
+      | ok m =>
+        rw [hn] at hm
+        simp only [Except.ok.injEq] at hm
+        obtain ⟨hnd, hm2⟩ := newManifest_eq_ok hn
+        have hnodes : nodesOf H (filterModule raw) ++ extra = nodesOf H (b4Entries raw yaml lock) := by
+          rw [hx]; simp [nodesOf, b4Entries]
+        rw [hnodes] at hnd hm2
+        refine ⟨hnd, ?_, ?_, ?_⟩
+        · intro e he
+          rcases List.mem_append.mp he with he | he
+          · exact hf.2 e he
+          · exact hv e he
+        · rw [← hd, ← hm, hm2]
+        · unfold b4ManifestText
+          rw [filterModule_idem, walkNodes_ok H _ hf.2, ho]
+          simp only []
+          rw [hn, hm2]
+
+/-! ### module sets: the digest of every module as a function of the set -/
+
+theorem mapExcept_ok_map {α β ε : Type} (f : α → Except ε β) (g : α → β) : ∀ (l : List α),
+    (∀ a ∈ l, f a = .ok (g a)) → mapExcept f l = .ok (l.map g)
+  | [], _ => rfl
+  | a :: as, h => by
+    simp only [mapExcept, h a (by simp), mapExcept_ok_map f g as (fun x hx => h x (by simp [hx])), List.map_cons]
+
+/-- `Module.Digest(b5)` of module `i` of the set, with the fuel the driver uses -/
+def dg (H : Bytes → Digest) (ms : List Mod) (i : Nat) : Except MErr MDigest :=
+  moduleDigest H ms (ms.length + 1) i
+
+def dfltDigest : MDigest := ⟨.b5, ⟨List.replicate 64 0, by simp⟩⟩
+
+/-- the digest value (a default where the computation fails) -/
+def val (H : Bytes → Digest) (ms : List Mod) (i : Nat) : MDigest :=
+  match dg H ms i with
+  | .ok d => d
+  | .error _ => dfltDigest
+
+/-- the dependency digests `Module.Digest(b5)` of module `m` is computed over -/
+def depDigests (H : Bytes → Digest) (ms : List Mod) (m : Mod) : List MDigest :=
+  if m.isLocal then m.deps.map (val H ms) else m.pinned
+
+/-- everything hashed when the digest of module `a` of the set is computed -/
+def inputsAt (H : Bytes → Digest) (ms : List Mod) (a : Nat) : List Bytes :=
+  match ms[a]? with
+  | some m => b5Inputs H m.bucket (depDigests H ms m)
+  | none => []
+
+/-- A module set as ModuleSetBuilder / getModuleDeps produce it: resolved dependencies of local
+    modules have smaller indices (topological numbering; acyclic), the dependency lists are
+    transitively closed over local modules (ModuleDeps() "includes transitive dependencies") and
+    duplicate-free, buckets are path → bytes maps with validated paths whose module files have no
+    U+000A, pinned digests are b5. -/
+structure SetOK (ms : List Mod) : Prop where
+  topo : ∀ (i : Nat) (m : Mod), ms[i]? = some m → m.isLocal = true → ∀ j ∈ m.deps, j < i
+  closed : ∀ (i : Nat) (m : Mod), ms[i]? = some m → m.isLocal = true → ∀ j ∈ m.deps, ∀ mj, ms[j]? = some mj →
+    mj.isLocal = true → ∀ l ∈ mj.deps, l ∈ m.deps
+  nodup : ∀ (i : Nat) (m : Mod), ms[i]? = some m → m.deps.Nodup
+  bucket : ∀ (i : Nat) (m : Mod), ms[i]? = some m → BucketOK m.bucket ∧ NoNewline (filterModule m.bucket)
+  pinned : ∀ (i : Nat) (m : Mod), ms[i]? = some m → m.pinned.all (fun d => d.type = .b5) = true
+
+theorem moduleDigest_fuel_topo (H : Bytes → Digest) (ms : List Mod)
+    (htopo : ∀ (i : Nat) (m : Mod), ms[i]? = some m → m.isLocal = true → ∀ j ∈ m.deps, j < i) :
+    ∀ i fuel, i < fuel → moduleDigest H ms fuel i = moduleDigest H ms (i + 1) i := by
+  intro i
+  induction i using Nat.strongRecOn with
+  | _ i ih =>
+    intro fuel hf
+    obtain ⟨f, rfl⟩ : ∃ f, fuel = f + 1 := ⟨fuel - 1, by omega⟩
+    unfold moduleDigest
+    cases hm : ms[i]? with
+    | none => rfl
+    | some m =>
+      simp only []
+      by_cases hl : m.isLocal = true
+      · simp only [hl, if_true]
+        have : mapExcept (moduleDigest H ms f) m.deps = mapExcept (moduleDigest H ms i) m.deps := by
+          apply mapExcept_congr
+          intro j hj
+          have hji := htopo i m hm hl j hj
+          rw [ih j hji f (by omega), ih j hji i hji]
+        rw [this]
+      · have hl' : m.isLocal = false := by simpa using hl
+        simp only [hl']
+        rfl
+
+/-- one step of the recursion, in terms of `dg` -/
+theorem dg_unfold (H : Bytes → Digest) (ms : List Mod) (h : SetOK ms) (i : Nat) (m : Mod) (hm : ms[i]? = some m) :
+    dg H ms i = if m.isLocal then
+        (match mapExcept (dg H ms) m.deps with
+         | .error e => .error e
+         | .ok ds => moduleB5 H m.bucket ds)
+      else moduleB5 H m.bucket m.pinned := by
+  have hi : i < ms.length := (List.getElem?_eq_some_iff.mp hm).1
+  unfold dg
+  rw [moduleDigest]
+  simp only [hm]
+  by_cases hl : m.isLocal = true
+  · simp only [hl, if_true]
+    have : mapExcept (moduleDigest H ms ms.length) m.deps = mapExcept (fun j => moduleDigest H ms (ms.length + 1) j) m.deps := by
+      apply mapExcept_congr
+      intro j hj
+      have hji := h.topo i m hm hl j hj
+      rw [moduleDigest_fuel_topo H ms h.topo j ms.length (by omega),
+        moduleDigest_fuel_topo H ms h.topo j (ms.length + 1) (by omega)]
+    rw [this]
+    rfl
+  · have hl' : m.isLocal = false := by simpa using hl
+    simp only [hl']
+    rfl
+
+/-- every module of a well-formed set has a b5 digest -/
+theorem dg_ok (H : Bytes → Digest) (ms : List Mod) (h : SetOK ms) :
+    ∀ (i : Nat) (m : Mod), ms[i]? = some m → ∃ d, dg H ms i = .ok d ∧ d.type = .b5 := by
+  intro i
+  induction i using Nat.strongRecOn with
+  | _ i ih =>
+    intro m hm
+    have hi : i < ms.length := (List.getElem?_eq_some_iff.mp hm).1
+    rw [dg_unfold H ms h i m hm]
+    by_cases hl : m.isLocal = true
+    · simp only [hl, if_true]
+      have hdeps : ∀ j ∈ m.deps, dg H ms j = .ok (val H ms j) ∧ (val H ms j).type = .b5 := by
+        intro j hj
+        have hji := h.topo i m hm hl j hj
+        obtain ⟨d, hd, ht⟩ := ih j hji ms[j] (List.getElem?_eq_getElem (by omega))
+        have : val H ms j = d := by simp [val, hd]
+        rw [this]; exact ⟨hd, ht⟩
+      rw [mapExcept_ok_map _ (val H ms) m.deps (fun j hj => (hdeps j hj).1)]
+      simp only []
+      have hall : (m.deps.map (val H ms)).all (fun d => d.type = .b5) = true := by
+        simp only [List.all_eq_true, List.mem_map, decide_eq_true_eq]
+        rintro d ⟨j, hj, rfl⟩; exact (hdeps j hj).2
+      rw [moduleB5_eq H m.bucket _ (h.bucket i m hm).1 hall]
+      exact ⟨_, rfl, rfl⟩
+    · have hl' : m.isLocal = false := by simpa using hl
+      simp only [hl', Bool.false_eq_true, if_false]
+      rw [moduleB5_eq H m.bucket _ (h.bucket i m hm).1 (h.pinned i m hm)]
+      exact ⟨_, rfl, rfl⟩
+
+theorem dg_eq_val (H : Bytes → Digest) (ms : List Mod) (h : SetOK ms) (i : Nat) (m : Mod) (hm : ms[i]? = some m) :
+    dg H ms i = .ok (val H ms i) ∧ (val H ms i).type = .b5 := by
+  obtain ⟨d, hd, ht⟩ := dg_ok H ms h i m hm
+  have : val H ms i = d := by simp [val, hd]
+  rw [this]; exact ⟨hd, ht⟩
+
+/-- the closed form: the digest of a module is `moduleB5` of its bucket over `depDigests` -/
+theorem dg_eq_moduleB5 (H : Bytes → Digest) (ms : List Mod) (h : SetOK ms) (i : Nat) (m : Mod) (hm : ms[i]? = some m) :
+    dg H ms i = moduleB5 H m.bucket (depDigests H ms m) ∧
+    (depDigests H ms m).all (fun d => d.type = .b5) = true := by
+  rw [dg_unfold H ms h i m hm]
+  unfold depDigests
+  by_cases hl : m.isLocal = true
+  · simp only [hl, if_true]
+    have hi : i < ms.length := (List.getElem?_eq_some_iff.mp hm).1
+    have hdeps : ∀ j ∈ m.deps, dg H ms j = .ok (val H ms j) ∧ (val H ms j).type = .b5 := by
+      intro j hj
+      have hji := h.topo i m hm hl j hj
+      exact dg_eq_val H ms h j ms[j] (List.getElem?_eq_getElem (by omega))
+    rw [mapExcept_ok_map _ (val H ms) m.deps (fun j hj => (hdeps j hj).1)]
+    refine ⟨rfl, ?_⟩
+    simp only [List.all_eq_true, List.mem_map, decide_eq_true_eq]
+    rintro d ⟨j, hj, rfl⟩; exact (hdeps j hj).2
+  · have hl' : m.isLocal = false := by simpa using hl
+    simp only [hl', Bool.false_eq_true, if_false]
+    exact ⟨trivial, h.pinned i m hm⟩
+
+/-- the set with the bucket of module `k` replaced by `b'` -/
+def withBucket (ms : List Mod) (k : Nat) (mk : Mod) (b' : Bucket) : List Mod :=
+  ms.set k { mk with bucket := b' }
+
+theorem withBucket_get_ne (ms : List Mod) (k : Nat) (mk : Mod) (b' : Bucket) {j : Nat} (h : j ≠ k) :
+    (withBucket ms k mk b')[j]? = ms[j]? := List.getElem?_set_ne (fun e => h e.symm)
+
+theorem withBucket_get_self (ms : List Mod) (k : Nat) (mk : Mod) (b' : Bucket) (hk : ms[k]? = some mk) :
+    (withBucket ms k mk b')[k]? = some { mk with bucket := b' } :=
+  List.getElem?_set_self (List.getElem?_eq_some_iff.mp hk).1
+
+/-- replacing a bucket by another well-formed one keeps the set well formed -/
+theorem SetOK.withBucket {ms : List Mod} (h : SetOK ms) (k : Nat) (mk : Mod) (b' : Bucket) (hk : ms[k]? = some mk)
+    (hb : BucketOK b') (hn : NoNewline (filterModule b')) : SetOK (withBucket ms k mk b') := by
+  have get : ∀ (i : Nat) (m : Mod), (Digest.withBucket ms k mk b')[i]? = some m →
+      ∃ m0, ms[i]? = some m0 ∧ m.isLocal = m0.isLocal ∧ m.deps = m0.deps ∧ m.pinned = m0.pinned ∧
+        (BucketOK m.bucket ∧ NoNewline (filterModule m.bucket)) := by
+    intro i m hm
+    by_cases hik : i = k
+    · subst hik
+      rw [withBucket_get_self ms i mk b' hk] at hm
+      simp only [Option.some.injEq] at hm
+      subst hm
+      exact ⟨mk, hk, rfl, rfl, rfl, hb, hn⟩
+    · rw [withBucket_get_ne ms k mk b' hik] at hm
+      exact ⟨m, hm, rfl, rfl, rfl, h.bucket i m hm⟩
+  constructor
+  · intro i m hm hl j hj
+    obtain ⟨m0, h0, e1, e2, _, _⟩ := get i m hm
+    exact h.topo i m0 h0 (e1 ▸ hl) j (e2 ▸ hj)
+  · intro i m hm hl j hj mj hmj hlj l hl'
+    obtain ⟨m0, h0, e1, e2, _, _⟩ := get i m hm
+    obtain ⟨mj0, hj0, f1, f2, _, _⟩ := get j mj hmj
+    rw [e2]
+    exact h.closed i m0 h0 (e1 ▸ hl) j (e2 ▸ hj) mj0 hj0 (f1 ▸ hlj) l (f2 ▸ hl')
+  · intro i m hm
+    obtain ⟨m0, h0, _, e2, _, _⟩ := get i m hm
+    rw [e2]; exact h.nodup i m0 h0
+  · intro i m hm
+    exact (get i m hm).choose_spec.2.2.2.2
+  · intro i m hm
+    obtain ⟨m0, h0, _, _, e3, _⟩ := get i m hm
+    rw [e3]; exact h.pinned i m0 h0
+
+/-- A module that is not `k` and does not (transitively, through local modules) depend on `k`
+    keeps its digest when the bucket of `k` changes. -/
+theorem dg_unchanged (H : Bytes → Digest) (ms : List Mod) (k : Nat) (mk : Mod) (b' : Bucket)
+    (h1 : SetOK ms) (h2 : SetOK (withBucket ms k mk b')) :
+    ∀ (j : Nat) (mj : Mod), ms[j]? = some mj → j ≠ k → (mj.isLocal = false ∨ k ∉ mj.deps) →
+      dg H ms j = dg H (withBucket ms k mk b') j := by
+  intro j
+  induction j using Nat.strongRecOn with
+  | _ j ih =>
+    intro mj hmj hjk hdep
+    have hmj' : (withBucket ms k mk b')[j]? = some mj := by rw [withBucket_get_ne ms k mk b' hjk]; exact hmj
+    rw [dg_unfold H ms h1 j mj hmj, dg_unfold H _ h2 j mj hmj']
+    by_cases hl : mj.isLocal = true
+    · simp only [hl, if_true]
+      have hk' : k ∉ mj.deps := by
+        rcases hdep with h | h
+        · rw [hl] at h; cases h
+        · exact h
+      have hj : j < ms.length := (List.getElem?_eq_some_iff.mp hmj).1
+      have : mapExcept (dg H ms) mj.deps = mapExcept (dg H (withBucket ms k mk b')) mj.deps := by
+        apply mapExcept_congr
+        intro l hl'
+        have hlj := h1.topo j mj hmj hl l hl'
+        have hml : ms[l]? = some ms[l] := List.getElem?_eq_getElem (by omega)
+        refine ih l hlj ms[l] hml (fun e => hk' (e ▸ hl')) ?_
+        by_cases hll : (ms[l]).isLocal = true
+        · right
+          intro hkl
+          exact hk' (h1.closed j mj hmj hl l hl' ms[l] hml hll k hkl)
+        · left; simpa using hll
+      rw [this]
+    · have hl' : mj.isLocal = false := by simpa using hl
+      simp only [hl', Bool.false_eq_true, if_false]
+
+theorem countP_lt_of_imp {α : Type} (p q : α → Bool) : ∀ (l : List α),
+    (∀ x ∈ l, p x = true → q x = true) → (∃ x ∈ l, q x = true ∧ p x = false) → l.countP p < l.countP q
+  | [], _, h => by obtain ⟨x, hx, _⟩ := h; cases hx
+  | a :: as, himp, hex => by
+    have hle : as.countP p ≤ as.countP q :=
+      List.countP_mono_left (fun x hx h => himp x (List.mem_cons_of_mem _ hx) h)
+    simp only [List.countP_cons]
+    obtain ⟨x, hx, hq, hp⟩ := hex
+    rcases List.mem_cons.mp hx with rfl | hx
+    · simp only [hq, hp, if_true, Bool.false_eq_true, if_false]; omega
+    · have ih := countP_lt_of_imp p q as (fun y hy => himp y (List.mem_cons_of_mem _ hy)) ⟨x, hx, hq, hp⟩
+      by_cases hpa : p a = true
+      · simp only [hpa, himp a List.mem_cons_self hpa, if_true]; omega
+      · have : p a = false := by simpa using hpa
+        simp only [this, Bool.false_eq_true, if_false]
+        split <;> omega
+
 end BufModel.Digest
